@@ -13,7 +13,7 @@ import Mathlib.Tactic.Linarith
 1. `join_radiate`, `radiate_join`, `bearing_range`, `bearing_north`, `bearing_east`, `bearing_south`,
    `bearing_west`, `bearing_west_half`, `bearing_east_half`, `back_bearing_east`, `back_bearing_west`,
    `joins_reverse`
-2. `rotation_scale`
+2. `rotation_scale`, `rotation_scale_as_plain`, `rotation_full_turn`, `scale_linear`
 3. `va_conv_upper`, `va_conv_lower`, `va_pythagoras`, `va_heights`, `va_rejects`, `va_defined`,
    `va_second_range`
 4. `fvc_closed_form`, `fvc_proportional_closed`, `fvc_ciddor_form`, `fvc_proportional_co2`,
@@ -227,6 +227,26 @@ theorem rotation_scale (e n b d ρ k : ℝ) :
   unfold radiations polar2rect
   simp only [sin_def, cos_def, radians_def, mul_comm d k]
 
+/-- the rotation and scale arguments are a bearing shift and a distance factor: radiating with rotation ρ and scale k is the plain
+radiation (rotation 0, scale 1) of bearing `b + ρ` and distance `k·d`. -/
+theorem rotation_scale_as_plain (e n b d ρ k : ℝ) :
+    radiations e n b d ρ k = radiations e n (b + ρ) (k * d) 0 1 := by
+  rw [rotation_scale, rotation_scale]
+  simp only [add_zero, one_mul]
+
+/-- a rotation by a full turn changes nothing. -/
+theorem rotation_full_turn (e n b d ρ k : ℝ) :
+    radiations e n b d (ρ + 360) k = radiations e n b d ρ k := by
+  rw [rotation_scale, rotation_scale]
+  have h : (b + (ρ + 360)) * (Real.pi / 180) = (b + ρ) * (Real.pi / 180) + 2 * Real.pi := by ring
+  rw [h, Real.sin_add_two_pi, Real.cos_add_two_pi]
+
+/-- scale factors compose: the vector radiated with scale `k` is `k` times the vector radiated with scale 1. -/
+theorem scale_linear (e n b d ρ k : ℝ) :
+    (radiations e n b d ρ k).1 - e = k * ((radiations e n b d ρ 1).1 - e) ∧
+    (radiations e n b d ρ k).2 - n = k * ((radiations e n b d ρ 1).2 - n) := by
+  rw [rotation_scale, rotation_scale]
+  constructor <;> simp only <;> ring
 
 /-! ### va_conv -/
 
@@ -666,6 +686,9 @@ end GeodeVerif.C19
 #print axioms GeodeVerif.C19.back_bearing_west
 #print axioms GeodeVerif.C19.joins_reverse
 #print axioms GeodeVerif.C19.rotation_scale
+#print axioms GeodeVerif.C19.rotation_scale_as_plain
+#print axioms GeodeVerif.C19.rotation_full_turn
+#print axioms GeodeVerif.C19.scale_linear
 #print axioms GeodeVerif.C19.va_pythagoras
 #print axioms GeodeVerif.C19.va_heights
 #print axioms GeodeVerif.C19.va_rejects
